@@ -271,6 +271,14 @@ func (cr *ChunkReader) parseAndRemoveChunkInfo(p []byte) (int, error) {
 			}
 		}
 
+		// The final chunk ends the stream: make sure the underlying
+		// reader has nothing more and has reported io.EOF itself, because
+		// the wrapped readers (request authentication) run their checks
+		// only when they hit EOF.
+		if err := cr.expectEOF(); err != nil {
+			return 0, err
+		}
+
 		return 0, io.EOF
 	}
 
@@ -300,6 +308,29 @@ func (cr *ChunkReader) parseAndRemoveChunkInfo(p []byte) (int, error) {
 	}
 
 	return n, nil
+}
+
+// expectEOF reads the underlying reader until it reports io.EOF and fails
+// if any byte follows the final chunk.
+func (cr *ChunkReader) expectEOF() error {
+	if cr.isEOF {
+		return nil
+	}
+	var b [1]byte
+	for i := 0; i < 16; i++ {
+		n, err := cr.r.Read(b[:])
+		if n > 0 {
+			return errInvalidChunkFormat
+		}
+		if err == io.EOF {
+			cr.isEOF = true
+			return nil
+		}
+		if err != nil {
+			return err
+		}
+	}
+	return io.ErrNoProgress
 }
 
 // https://docs.aws.amazon.com/AmazonS3/latest/API/sig-v4-header-based-auth.html
@@ -436,6 +467,11 @@ func (cr *ChunkReader) parseChunkHeaderBytes(header []byte, l *int) (int64, stri
 		err = readAndSkip(rdr, '\n', '\r', '\n')
 		if err != nil {
 			return cr.handleRdrErr(err, header)
+		}
+
+		// nothing may follow the end of the stream
+		if _, err := rdr.ReadByte(); err == nil {
+			return 0, "", 0, errInvalidChunkFormat
 		}
 
 		return 0, sig, 0, nil
